@@ -50,6 +50,9 @@ var binInfo = map[string]struct {
 type Printer struct {
 	FullParens bool // parenthesise every non-atomic operand (metamorphic variant; must not change behaviour)
 	Public     bool // print Kombinationen (and their fields) and functions as public declarations of a module
+	// print a plain variable as '(v)' in output statements: handing a parameter to an imported function
+	// (Duden/Ausgabe) makes the -O 2 annotator give up on it, a parenthesised operand does not
+	ParenPrint bool
 }
 
 func FloatSrc(f float64) (string, bool) {
@@ -215,7 +218,11 @@ func (p *Printer) call(c *Call) string {
 	sb.WriteString(c.F.Words[0])
 	for i, a := range c.Args {
 		sb.WriteString(" ")
-		sb.WriteString(p.operand(a, pPrimary)) // arguments: single token or parenthesised
+		x := p.operand(a, pPrimary) // arguments: single token or parenthesised
+		if r, isRef := a.(*Ref); isRef && p.ParenPrint && !c.F.Params[i].Ref && !r.T.IsPrim() {
+			x = "(" + x + ")" // by-value argument: '(v)' is no assignable, see ParenPrint
+		}
+		sb.WriteString(x)
 		if w := c.F.Words[i+1]; w != "" {
 			sb.WriteString(" " + w)
 		}
@@ -360,7 +367,11 @@ func (p *Printer) stmt(sb *strings.Builder, s Stmt, d int) {
 			fmt.Fprintf(sb, "%sGib %s zurück.\n", in, p.Expr(s.X))
 		}
 	case *Print:
-		fmt.Fprintf(sb, "%sSchreibe %s auf eine Zeile.\n", in, p.operand(s.X, pPrimary))
+		x := p.operand(s.X, pPrimary)
+		if _, isRef := s.X.(*Ref); isRef && p.ParenPrint {
+			x = "(" + x + ")"
+		}
+		fmt.Fprintf(sb, "%sSchreibe %s auf eine Zeile.\n", in, x)
 	case *CallStmt:
 		sb.WriteString(in + p.call(s.C) + ".\n")
 	case *Block:
@@ -459,12 +470,19 @@ func (p *Printer) ProgramSplit(pr *Program) (lib, main string) {
 		lp.structDecl(&lb, s)
 	}
 	for _, f := range pr.Funcs {
-		lp.funcDecl(&lb, f)
+		if !f.InMain {
+			lp.funcDecl(&lb, f)
+		}
 	}
 	mb.WriteString("Binde \"Duden/Ausgabe\" ein.\nBinde \"lib\" ein.\n\n")
 	if len(pr.Prelude) > 0 {
 		p.stmts(&mb, pr.Prelude, 0)
 		mb.WriteString("\n")
+	}
+	for _, f := range pr.Funcs {
+		if f.InMain {
+			p.funcDecl(&mb, f)
+		}
 	}
 	p.stmts(&mb, pr.Main, 0)
 	return lb.String(), mb.String()
